@@ -383,11 +383,28 @@ theorem sane_relink {s : Sys π ν} (hs : Sane s) (p0 : Nat) (l : List Nat) : Sa
         apply ih
         exact sane_addEdge hs h1.1 h1.2 h2.1 (fun hp => h2.2 (mem_descendants.mpr ⟨h2.1, hp⟩))
 
+theorem dedupeChilds_graph (s : Sys π ν) (l : List Nat) :
+    (s.dedupeChilds l).1.comps = s.comps ∧ (s.dedupeChilds l).1.edges = s.edges ∧
+    (s.dedupeChilds l).1.free = s.free ∧ (s.dedupeChilds l).1.next = s.next ∧
+    (s.dedupeChilds l).1.nodes = s.nodes := by
+  induction l generalizing s with
+  | nil => exact ⟨rfl, rfl, rfl, rfl, rfl⟩
+  | cons c cs ih =>
+    unfold Sys.dedupeChilds Sys.fail
+    split
+    · exact ⟨rfl, rfl, rfl, rfl, rfl⟩
+    · split
+      · exact ⟨rfl, rfl, rfl, rfl, rfl⟩
+      · next pl' _ => exact ih _
+
+theorem sane_dedupeChilds {s : Sys π ν} (hs : Sane s) (l : List Nat) : Sane (s.dedupeChilds l).1 := by
+  obtain ⟨h1, h2, h3, h4, h5⟩ := dedupeChilds_graph s l
+  exact sane_congr hs (by simp [Sys.ids, h1]) h2 h3 h4 (h5 ▸ hs.nodes_nodup)
+
 theorem sane_delComp {s : Sys π ν} (hs : Sane s) (x : String) (d : Bool) : Sane (s.delComp x d).1 := by
   unfold Sys.delComp Sys.fail
   simp only
   split
-  · exact hs
   · exact hs
   · split
     · exact hs
@@ -399,20 +416,27 @@ theorem sane_delComp {s : Sys π ν} (hs : Sane s) (x : String) (d : Bool) : San
           · exact hs
           · split
             · exact hs
-            · apply sane_andThen
-              · split
-                · exact sane_delDescendants hs _
-                · exact hs
-              · intro s1 h1
-                apply sane_andThen (sane_delRegs (sane_removeNode h1 _) _)
-                intro s2 h2
-                split
-                · exact h2
+            · split
+              · exact hs
+              · apply sane_andThen
                 · split
+                  · exact sane_delDescendants hs _
+                  · exact hs
+                · intro s1 h1
+                  apply sane_andThen (sane_delRegs (sane_removeNode h1 _) _)
+                  intro s2 h2
+                  split
                   · exact h2
-                  · exact sane_relink h2 _ _
-                  · exact h2
-                  · exact h2
+                  · split
+                    · exact h2
+                    · exact h2
+                    · exact h2
+                    · apply sane_andThen (sane_relink h2 _ _)
+                      intro s3 h3
+                      split
+                      · exact h3
+                      · apply sane_dedupeChilds
+                        exact sane_congr h3 rfl rfl rfl rfl h3.nodes_nodup
 
 theorem sane_setSysPhases {s : Sys π ν} (hs : Sane s) (ph : List (String × ν)) : Sane (s.setSysPhases ph).1 := by
   unfold Sys.setSysPhases Sys.fail
@@ -443,12 +467,14 @@ theorem sane_init_all {name : String} {src : π} {g r : String} {s : Sys π ν}
   unfold Sys.init at h
   split at h
   · simp at h
-  · simp only [Option.some.injEq] at h
-    subst h
-    constructor <;> simp [Sys.ids]
-    intro a ha
-    obtain ⟨b, hb⟩ := ha.head_mem
-    simp at hb
+  · split at h
+    · simp at h
+    · simp only [Option.some.injEq] at h
+      subst h
+      constructor <;> simp [Sys.ids]
+      intro a ha
+      obtain ⟨b, hb⟩ := ha.head_mem
+      simp at hb
 
 end
 end SysLoss
